@@ -9,7 +9,7 @@ import sys
 import cachefile
 import core
 
-CONE = ["Model/Blank.v", "Model/CacheFs.v", "Model/FileFlow.v", "Proofs/BlankProofs.v", "Proofs/KeyProofs.v", "Proofs/CacheProofs.v", "Model/Exec.v", "Model/StepExec.v", "Model/FileExec.v", "Model/FileSpec.v", "Model/CacheExec.v", "Model/CacheSpec.v", "Proofs/CacheSafe.v"]
+CONE = ["Model/Blank.v", "Model/CacheFs.v", "Model/FileFlow.v", "Proofs/BlankProofs.v", "Proofs/KeyProofs.v", "Proofs/CacheProofs.v", "Model/Exec.v", "Model/StepExec.v", "Model/FileExec.v", "Model/FileSpec.v", "Model/CacheExec.v", "Model/CacheSpec.v", "Proofs/CacheSafe.v", "Proofs/Refute.v"]
 TOKENS = ["/ipykernel_", "/ipykernel_", "12", "7", "007", "/", "x", "/tmp", "ipykernel_", "_", "/ipy", "9/", "abc/", " ", "-", "."]
 
 
